@@ -194,6 +194,12 @@ func workerMain() {
 	if err != nil {
 		panic(err)
 	}
+	// a sink for CMAF-ingest sessions started through the API ("{sink}" in a request body)
+	sink := httptest.NewServer(http.HandlerFunc(func(w http.ResponseWriter, r *http.Request) {
+		io.Copy(io.Discard, r.Body)
+		w.WriteHeader(http.StatusOK)
+	}))
+	defer sink.Close()
 	var memHit atomic.Bool
 	go func() {
 		var ms runtime.MemStats
@@ -220,6 +226,9 @@ func workerMain() {
 		if err := json.Unmarshal(sc.Bytes(), &rq); err != nil {
 			emit(c08obs{Class: "status", Status: 400, Body: "harness: bad request line"})
 			continue
+		}
+		if bytes.Contains(rq.Body, []byte("{sink}")) {
+			rq.Body = bytes.ReplaceAll(rq.Body, []byte("{sink}"), []byte(sink.URL))
 		}
 		done := make(chan c08obs, 1)
 		t0 := time.Now()
